@@ -126,6 +126,29 @@ func c03Scenario(ki int) mc.Scenario {
 		if k.name == "Int32" || k.name == "Int64" || k.name == "Float32" {
 			// width adapters wrap the global coercer; a custom coercer given with WithCoercer replaces the adapter as a whole
 		}
+		// a coercer given to the schema itself (WithCoercer, Time.Format, Time.FormatFunc) wins over a process-wide
+		// override of the same kind — installed before the schema is built (so that nothing captured while building can bypass it) and in force while it runs
+		globalToo := false
+		if (opt == 1 || opt == 3 || opt >= 4) && k.setGlobal != nil {
+			globalToo = x.Choose(2, "globalOverrideInstalledToo") == 1
+			if globalToo {
+				var wrong any
+				switch k.base {
+				case KStr:
+					wrong = "GLOBAL"
+				case KInt:
+					wrong = 9999
+				case KFloat:
+					wrong = 99.25
+				case KBool:
+					wrong = false
+				case KTime:
+					wrong = time.Date(1999, 9, 9, 9, 9, 9, 0, time.UTC)
+				}
+				r2 := k.setGlobal(func(data any) (any, error) { return wrong, nil })
+				defer r2()
+			}
+		}
 		var restore func()
 		var leaf z.ZogSchema
 		switch {
@@ -154,29 +177,6 @@ func c03Scenario(ki int) mc.Scenario {
 		}
 		if restore != nil {
 			defer restore()
-		}
-		// a coercer given to the schema itself (WithCoercer, Time.Format, Time.FormatFunc) wins over a process-wide
-		// override of the same kind installed at the same time
-		globalToo := false
-		if (opt == 1 || opt == 3 || opt >= 4) && k.setGlobal != nil {
-			globalToo = x.Choose(2, "globalOverrideInstalledToo") == 1
-			if globalToo {
-				var wrong any
-				switch k.base {
-				case KStr:
-					wrong = "GLOBAL"
-				case KInt:
-					wrong = 9999
-				case KFloat:
-					wrong = 99.25
-				case KBool:
-					wrong = false
-				case KTime:
-					wrong = time.Date(1999, 9, 9, 9, 9, 9, 0, time.UTC)
-				}
-				r2 := k.setGlobal(func(data any) (any, error) { return wrong, nil })
-				defer r2()
-			}
 		}
 		want, documented := c03Documented(k, opt, in)
 		absent := parseAbsentSpec(in)
